@@ -70,20 +70,23 @@ Complete == slots = <<>>
 (***************************************************************************)
 (* Run options enumerated for a program with nl top-level lines.           *)
 (***************************************************************************)
-Opt(e, t, y) == [e |-> e, t |-> t, y |-> y]
-OptSeq(nl) ==
-  CASE Mode = "c02" -> <<Opt(0, 0, 0)>>
-    [] Mode = "c02t" -> <<Opt(0, 0, 0), Opt(0, 1, 0)>>
+Opt(e, t, y) == [e |-> e, t |-> t, y |-> y, m |-> 0]
+OptM(e, t, y) == [e |-> e, t |-> t, y |-> y, m |-> 1]
+\* Programs with multi-command pipelines or subshells are also run with the
+\* monitor option on (a different code path starts and awaits the children).
+OptSeq(nl, jobs) ==
+  CASE Mode = "c02" -> <<Opt(0, 0, 0)>> \o (IF jobs THEN <<OptM(0, 0, 0)>> ELSE <<>>)
     [] Mode = "c10" -> <<Opt(0, 1, 0), Opt(1, 1, 0), Opt(1, 0, 0)>>
+                       \o (IF jobs THEN <<OptM(1, 1, 0), OptM(0, 0, 0)>> ELSE <<>>)
     [] Mode = "syn" -> [i \in 1..(2 * nl) |-> Opt((i - 1) % 2, 1, ((i - 1) \div 2) + 1)]
 
 Result(t, o) ==
   LET R == Run(t, o)
-  IN [e |-> o.e, t |-> o.t, y |-> o.y, oc |-> R.oc, tr |-> R.tr, st |-> R.st, nt |-> R.nt, tag |-> R.tag]
+  IN [e |-> o.e, t |-> o.t, y |-> o.y, m |-> o.m, oc |-> R.oc, tr |-> R.tr, st |-> R.st, nt |-> R.nt, tag |-> R.tag]
 
 Out ==
   LET t == Parse(toks)
-      os == OptSeq(NLines(t))
+      os == OptSeq(NLines(t), \E i \in 1..Len(toks) : toks[i].k \in {"pipe", "sub"})
   IN [p |-> toks, o |-> [i \in 1..Len(os) |-> Result(t, os[i])]]
 
 Emit == Complete => PrintT(ToJson(Out))
@@ -163,6 +166,7 @@ Laws ==
 (***************************************************************************)
 (* Token alphabets (selected per configuration file).                      *)
 (***************************************************************************)
+NIL == T0("nil")
 MK0 == Tn("mk", 0)
 MK1 == Tn("mk", 1)
 MK3 == Tn("mk", 3)
@@ -186,7 +190,7 @@ Compound == {T0("not"), T0("sub"), T0("seq"), T0("and"), T0("or"), T0("pipe"),
 \* C02: everything, small bound
 AlphaFlow ==
   {MK0, MK1, PR, TICK, BRK(1), BRK(2), CNT(1), CNT(2), RET(-1), RET(5), EXIT(-1), EXIT(4),
-   CMD("f"), CMD("true"), DEFN("f"), FOR("ab"), FOR(""), CASE_("v")} \cup Compound
+   CMD("f"), CMD("true"), NIL, DEFN("f"), FOR("ab"), FOR(""), CASE_("v")} \cup Compound
 ItemsFlow == {ITEM("a", 0), ITEM("*", 0), ITEM("a", 1), ITEM("a|b", 2)}
 
 \* C02: and-or lists, negation, pipelines, grouping
@@ -207,7 +211,7 @@ AlphaLoops2 == {MK1, TICK, CNT(1), T0("while"), T0("seq"), T0("or"), T0("and")}
 AlphaNest == {MK0, TICK, BRK(1), BRK(2), CNT(1), CNT(2), FOR("ab"), T0("while"), T0("until"), T0("seq")}
 
 \* C02: long and-or lists
-AlphaAndOr4 == {MK0, MK1, PR, T0("and"), T0("or"), T0("not")}
+AlphaAndOr4 == {MK0, MK1, PR, NIL, T0("and"), T0("or"), T0("not")}
 
 \* C02: functions called from loops, return
 AlphaFnLoop == {MK0, PR, DEFN("f"), CMD("f"), RET(5), RET(-1), BRK(1), FOR("ab"), T0("seq"), T0("and"), T0("not")}
@@ -250,7 +254,7 @@ AlphaErrFn ==
   {MK0, MK1, CMD("f"), RXE(CMD("f")), DEFN("f"), T0("rx"), T0("seq"), T0("or"), T0("sub")}
 
 \* C10: errexit across subshell boundaries and in exempt contexts (few tokens, larger bound)
-AlphaErrSub == {MK0, MK1, T0("sub"), T0("pipe"), T0("seq"), T0("not"), T0("and"), T0("or"), T0("if")}
+AlphaErrSub == {MK0, MK1, NIL, EXIT(4), T0("sub"), T0("pipe"), T0("seq"), T0("not"), T0("and"), T0("or"), T0("if")}
 
 \* C10: errexit and functions called from exempt contexts
 AlphaErrFun == {MK0, MK1, DEFN("f"), CMD("f"), RET(5), T0("seq"), T0("not"), T0("and"), T0("if"), T0("sub")}
